@@ -92,6 +92,11 @@ def run_C11(ctx):
     r = tlc_client(ctx, "ClientReasons", cfgs([-1, 0, 1, 2]), TAILS, ["clean", "error", "cancel"],
                    ["transport", "reject", "stream", "cancel_do"], 2 if q else 3, True)
     drive_client(ctx, r.stdout_path, "reasons", "result,events", "whole,bytewise,mid", agg)
+    # retry count is per run of consecutive failures (a successful connection starts a fresh run), and errors that merely look
+    # like context errors (a transport's own deadline) while the request's context is alive are ordinary retryable errors
+    r = tlc_client(ctx, "ClientRuns", cfgs([1, 2]), [P, P + ["data", "COLON", "y"]], ["clean", "errctx"],
+                   ["transport", "transport_ctx", "stream"], 4 if q else 5, False)
+    drive_client(ctx, r.stdout_path, "runs", "result,events,waits", "whole", agg)
     r = tlc_client(ctx, "ClientBodyReset", cfgs([0, 1], body=("nil", "nobody", "getbody", "nogetbody", "failgetbody")), [P, P + ["data", "COLON", "y"]],
                    ["clean", "error"], ["transport", "stream"], 2, False)
     drive_client(ctx, r.stdout_path, "bodyreset", "result,body", "whole", agg)
@@ -151,6 +156,7 @@ def c12_cfgs(q):
     def c(mr, mul, mx, j):
         return dict(maxRetries=mr, initial=800000, mulNum=mul[0], mulDen=mul[1], maxInterval=mx * 100000, jitter=j, body="nobody")
     base = [c(0, (3, 2), 0, "none"), c(0, (2, 1), 20, "none"), c(0, (1, 1), 0, "none"), c(2, (3, 2), 12, "none"), c(3, (3, 2), 0, "none"),
+            c(2, (1, 1), 0, "none"), c(1, (3, 2), 8, "none"),
             c(-1, (3, 2), 0, "none"), c(1, (2, 1), 0, "default"), c(0, (3, 2), 20, "quarter"), c(0, (3, 2), 0, "default")]
     if not q:
         base += [c(3, (2, 1), 15, "quarter"), c(2, (1, 1), 0, "default"), c(0, (3, 2), 18, "none"), c(1, (3, 2), 0, "none")]
